@@ -512,6 +512,25 @@ def out6(units, R):
                                 obs[('call', ev.node['id'])] = (have >= need, 'callee %s assumes lag >= %d, caller has %s' % (
                                     callee_name(ev.node), need, have if have > NEG else 'unknown'), ev.node)
                         return
+                    if ev.kind == 'call' and callee_name(ev.node) in ('memmove', 'memcpy') and len(ev.node['args']) == 3:
+                        # a block move inside one string: memmove copes with overlap and only needs the destination not to be ahead
+                        # of the source; memcpy needs the two blocks apart, which a lag that depends on the input never guarantees
+                        bw, br = cd.norm(ev.node['args'][0]), cd.norm(ev.node['args'][1])
+                        if bw and br and bw[0] in W and bw[1] != 'nonneg' and br[1] != 'nonneg' and cls.get(bw[0]) == cls.get(br[0]):
+                            lag = cd.get(D, br[0], bw[0])
+                            lag = lag + br[1] - bw[1] if lag > NEG else NEG
+                            if callee_name(ev.node) == 'memmove':
+                                obs[ev.node['id']] = (lag >= 0, 'moves the block down by %s byte(s) (memmove: overlap allowed)' % lag if lag >= 0 else
+                                                      'the destination is not shown to be at or before the source (lag %s)' % (lag if lag > NEG else 'unknown'),
+                                                      ev.node)
+                            else:
+                                n_ = const_val(ev.node['args'][2])
+                                okc = lag > NEG and n_ is not None and lag >= n_
+                                obs[ev.node['id']] = (okc, 'the blocks are %s bytes apart' % lag if okc else
+                                                      'memcpy between two positions of one string that are %s apart: the blocks overlap whenever '
+                                                      'the copy is longer than that (undefined behaviour; memmove is the call for this)'
+                                                      % ('at least %d byte(s)' % lag if lag > NEG else 'an unknown distance'), ev.node)
+                        return
                     if ev.kind != 'store':
                         return
                     acc = access(ev.lhs)
